@@ -8,7 +8,8 @@ open Map
 theorem genesis_inv (cfg : Config) (p : Params) (h0 t0 : Int) (hc : CfgOK cfg p) : Inv (genesis cfg p h0 t0) := by
   refine { static := ?_, b := ?_, x := ?_, m := ?_, bound := ?_ }
   · exact { ed := hc.ed, ec := hc.ec, dc := hc.dc, mult_pos := hc.mult_pos, maxT_pos := hc.maxT_pos,
-            tax_lt := hc.tax_lt, slash_le := hc.slash_le }
+            tax_lt := hc.tax_lt, slash_le := hc.slash_le, complaint_pos := hc.complaint_pos,
+            arbitration_pos := hc.arbitration_pos }
   · refine { backed := rfl, ownerOk := ?_, ownerOf := ?_, provIdx := ?_, bindIdx := ?_, priced := ?_,
              pricingOnly := ?_, defined := ?_, ownerHas := ?_, minDep := ?_ }
     all_goals simp [genesis, Map.get]
